@@ -295,7 +295,7 @@ def hex_to_date_contract():
 @harness("C04")
 def dts_roundtrip():
     """Packed fault-log timestamps: decode(encode(t)) == t for every second of a century."""
-    y = sym_int("y", 2000, 2099)
+    y = sym_int("y", 1900, 2199)  # any century: only the two-digit year is on the wire
     mo = sym_int("mo", 1, 12)
     d = sym_int("d", 1, 31)
     hh = sym_int("hh", 0, 23)
@@ -303,6 +303,7 @@ def dts_roundtrip():
     ss = sym_int("ss", 0, 59)
     t = outcome(dt, y, mo, d, hh, mi, ss)
     assume(t.ok)
+    assume(Or(mo != 2, d != 29, y % 400 == 0, y % 100 != 0))  # (29 Feb of xx00 exists only in 2000: the wire year is ambiguous)
     e = outcome(H.hex_from_dts, t.value)
     check(e.ok and len(e.value) == 12, "timestamp packs into 12 hex")
     dd = outcome(H.hex_to_dts, e.value)
@@ -373,3 +374,26 @@ def device_id_out_of_range_refused(which):
         check(o.raised, "out-of-range id is refused")
     else:
         check(o.ok and len(o.value) == 6, "in-range id encodes to 6 hex")
+
+
+@harness("C04", cases=[("convert",), ("plain",)])
+def device_id_decode_ignores_history(which):
+    """The plain decode of a hex id is the same whether or not the friendly form of the same id
+    was asked for before (no call-history dependence)."""
+    h = sym_str("h", 6, "HEX")
+    from_hex = A.Address.convert_from_hex if which == "convert" else A.hex_id_to_dev_id
+    first = outcome(from_hex, h)
+    outcome(from_hex, h, True)
+    again = outcome(from_hex, h)
+    check(first.ok and again.ok and again.value == first.value, "decode(hex) is the same before and after decode(hex, friendly_id=True)")
+
+
+from pyvc.harness import structural  # noqa: E402
+
+
+@structural("C04")
+def codecs_are_pure():
+    """No function of helpers.py / address.py writes module state (a hidden cache keyed on part
+    of the arguments would make a codec depend on call history)."""
+    from .c05_payloads import decode_path_is_pure
+    return [r for r in decode_path_is_pure() if r[0].startswith(("helpers:", "address:"))]
